@@ -730,16 +730,11 @@ pub fn check_msg(p: &PathMsg, obs: &mut Obs) -> CheckResult {
             return Ok(());
         }
         if what == "changed:expiration" && matches!(p.exp, Some((s, _)) if s < 0) {
-            // grounded in the round-trip clause: the value produced from a negative timestamp does
-            // not survive to_rpc -> from_rpc
-            return Err(Fail::new(
-                "path-from-rpc:unfaithful:expiration",
-                format!(
-                    "expiration {:?} s is accepted as {} and that value does not survive its own RPC round trip: {detail}",
-                    p.exp.map(|e| e.0),
-                    v.metadata().map(|m| m.expiration).unwrap_or(0)
-                ),
-            ));
+            // a negative timestamp is accepted as 2^64-|s| (`seconds as u64`); expirations above
+            // i64::MAX are outside the value domain (to_rpc clamps them deliberately), so this is
+            // counted, not claimed
+            obs.label("observe:negative-expiration-accepted-and-wraps");
+            return Ok(());
         }
         return Err(Fail::new(format!("path-rt:{what}"), format!("to_rpc(from_rpc(m)) re-parses to another value: {detail}")));
     }
